@@ -3404,11 +3404,19 @@ static void scan_globals(void) {
       continue;
     }
 
-    // Find another definition of the same identifier.
+    // Find another definition of the same identifier. Of several
+    // tentative definitions, the first one in the list is kept.
     Obj *var2 = globals;
-    for (; var2; var2 = var2->next)
-      if (var != var2 && var2->is_definition && !strcmp(var->name, var2->name))
+    bool before = true;
+    for (; var2; var2 = var2->next) {
+      if (var == var2) {
+        before = false;
+        continue;
+      }
+      if (var2->is_definition && !strcmp(var->name, var2->name) &&
+          (!var2->is_tentative || before))
         break;
+    }
 
     // If there's another definition, the tentative definition
     // is redundant
